@@ -18,6 +18,7 @@ mod c13;
 mod c14;
 mod c15;
 mod c16;
+mod c17;
 mod c18;
 mod drive;
 mod hostile;
@@ -102,6 +103,7 @@ fn main() {
         "c14" => c14::run(&mut rep, &tier, seed, shard, replay.as_deref()),
         "c15" => c15::run(&mut rep, &tier, seed, shard, replay.as_deref()),
         "c16" => c16::run(&mut rep, &tier, seed, shard),
+        "c17" => c17::run(&mut rep, &tier, seed, shard, replay.as_deref()),
         "c18" => c18::run(&mut rep, &tier, seed, shard, replay.as_deref()),
         other => {
             eprintln!("unknown check {other}");
